@@ -17,6 +17,7 @@ from mirsmt.values import Cell, Lazy, Adt, Ref, Obj, UNIT, bv
 from mirsmt.interp import Inconclusive, PathEnd
 
 
+@common.part
 def obligations(chk, prop):
     prog = chk.prog
     ix = events.CukeIdx(prog)
